@@ -236,7 +236,8 @@ def replay_one(pid, h):
     rp = os.path.join(REPLAY_DIR, pid, h["harness"] + ".json")
     cmd = ["cargo", "kani", "-Z", "stubbing", "-Z", "unstable-options", "-Z", "concrete-playback",
            "--concrete-playback=print", "--exact", "--harness", h["full"],
-           "--harness-timeout", f"{max(h['cap'], 300)}s"]
+           # the playback run uses the regular (non-terse) output, measured ~2.5x slower than the verdict run
+           "--harness-timeout", f"{max(3 * h['cap'], 600)}s"]
     p = subprocess.run(cmd, cwd=KANI_DIR, env=ENV, capture_output=True, text=True, preexec_fn=limit_mem)
     out = p.stdout + p.stderr
     tests = re.findall(r"(#\[test\]\s*\nfn kani_concrete_playback_\w+\(\) \{.*?\n\})", out, re.S)
